@@ -53,7 +53,18 @@ def default_b(o):
     return json_default(o)
 
 
-DEFAULTS = {"default": json_default, "a": default_a, "b": default_b}
+def default_c(o):
+    """A caller's extension that OVERRIDES the encoding of types the library default also knows: the caller's encoding wins."""
+    if isinstance(o, set):
+        return {"$set": sorted(o, key=repr)}
+    if isinstance(o, complex):
+        return "complex:%r" % (o,)
+    if isinstance(o, pathlib.Path):
+        return {"$path": list(o.parts)}
+    return json_default(o)
+
+
+DEFAULTS = {"default": json_default, "a": default_a, "b": default_b, "c": default_c}
 
 
 def plan(tier, seed):
@@ -64,6 +75,15 @@ def plan(tier, seed):
 def gen_rich(rng, which):
     """Returns (value, expected decoded image or callable checker)."""
     r = rng.randrange(11)
+    if which == "c" and r in (0, 1, 5, 6):
+        if r in (0, 1):
+            p = pathlib.Path(rng.choice(["/tmp/x", "rel/p.txt", "/a b/é"]))
+            return p, {"$path": list(p.parts)}
+        if r == 5:
+            s = set(rng.sample([1, 2, 3, "a", "b", 2.5, None, True, "é"], rng.randint(0, 5)))
+            return s, {"$set": sorted(s, key=repr)}
+        c = complex(gen.gen_float(rng), rng.choice([0.0, 1.5, -2.0]))
+        return c, "complex:%r" % (c,)
     if r == 0:
         p = pathlib.Path("/" + "/".join(gen.gen_text(rng, long_ok=False).replace("/", "_").replace("\x00", "") or "x" for _ in range(rng.randint(1, 3))))
         return p, str(p)
@@ -119,7 +139,7 @@ def match(expected, got):
 
 def one(seed, i, tier, res, pool):
     rng = random.Random("%s:C10:%d" % (seed, i))
-    which = rng.choice(["default", "default", "a", "b"])
+    which = rng.choice(["default", "default", "a", "b", "c"])
     default = DEFAULTS[which]
     maxdepth = 12 if tier == "quick" else 60
     fields = {}
